@@ -7,7 +7,7 @@ import math
 import numpy as np
 from hypothesis import strategies as st
 
-from vf import gens
+from vf import forms, gens
 from vf.core import Result, history_independent, lib
 
 ID = "C08"
@@ -23,7 +23,8 @@ RULE = (
     "over a generated split. 'transform' cases: arbitrary positive (pressure, viscosity, Z) tables of 2..60 rows "
     "(uniform, geometric, jittered grids and evenly spaced grids with rows inserted in the middle; smooth synthetic or rough random columns) given to "
     "fluids.pseudopressure. Non-trivial = a gas case whose extreme nodes are >= 50 psi apart, or a transform "
-    "case with >= 3 rows. Distinct = hash of the case record."
+    "case with >= 3 rows. The builder's maximum pressure is a float, or a whole number handed over as Python / numpy int or by "
+    "keyword. Distinct = hash of the case record."
 )
 ASSUMPTIONS = [
     "quadrature accuracy: the two tabulated routes use the trapezoid rule on a 10-psi grid; the admissible gap to the adaptive quadrature is 5x the trapezoid error estimated from the table's own second differences of 2p/(mu Z), plus 1e-6 relative",
@@ -44,7 +45,9 @@ def gas_case(draw, tier):
     pmax = draw(st.floats(200.0, hi))
     n = draw(st.integers(2, 5))
     fr = sorted(draw(st.floats(0.0, 1.0)) for _ in range(n))
-    return {"kind": "gas", "comp": comp, "pmax": pmax, "node_fracs": fr, "split": draw(st.floats(0.05, 0.95)), "offnode": [draw(st.floats(0.0, 1.0)) for _ in range(2)]}
+    if draw(st.integers(0, 2)) == 0:
+        pmax = float(round(pmax))  # whole numbers (not necessarily multiples of 10) can be handed over as ints
+    return {"kind": "gas", "comp": comp, "pmax": pmax, "pmax_form": draw(forms.pmax_form()), "node_fracs": fr, "split": draw(st.floats(0.05, 0.95)), "offnode": [draw(st.floats(0.0, 1.0)) for _ in range(2)]}
 
 
 @st.composite
@@ -184,7 +187,8 @@ def check_case(case) -> Result:
         res.skipped = "Sutton point puts the state outside the Z-factor's range"
         return res
     gv = {"N2": comp["N2"], "H2S": comp["H2S"], "CO2": comp["CO2"], "Gas Specific Gravity": sg, "Reservoir Temperature (deg F)": T}
-    df = lib("build_pvt_gas", F.build_pvt_gas, gv, comp["dryness"], pmax)
+    df = lib("build_pvt_gas", forms.call_with_pmax, F.build_pvt_gas, gv, comp["dryness"], pmax, case.get("pmax_form", "float"))
+    res.labels["pmax_form"] = case.get("pmax_form", "float") + ("" if float(pmax).is_integer() else " (not whole: float)")
     p = np.asarray(df["pressure"], float)
     mt = np.asarray(df["pseudopressure"], float)
     n = len(p)
